@@ -8,6 +8,10 @@ C10 (AST-level round trips) ops.
                                          structural comparison; the failing detail is in the token)
   J rtgen <kind> <generator description> <token>   the same for objects too large to put on the line
   J alias <ctx> <hex a> <hex b> <token>  ok iff token = pass
+  C desctree <desc>           MODEL of `Display for Descriptor` without checksum (Model/DescDisplay.lean), id atoms;
+                              <desc> ::= bare(A) | pkh(N) | wpkh(N) | sh(A) | shwpkh(N) | shwsh(A) | wsh(A) | tr(N) | tr(N,T)
+                              T ::= leaf(A) | node(T,T)      (A = miniscript wire AST)
+  C descparse <hex s>         MODEL of `Tree::from_str` + `FromTree for Descriptor` → <desc> | ERR
   J rtsane <entry> <ctx> <ast> <token>   round trip through the DEFAULT parser (`Miniscript::from_str`, `Descriptor::from_str`):
                                          expected token = pass if the entry-point model of Model/Validate.lean accepts the
                                          object, `reject` otherwise (a sane object must parse back, an insane one must not)
@@ -28,6 +32,7 @@ import MsVerif.Driver.OpsText
 import MsVerif.Driver.OpsPolicy
 import MsVerif.Driver.OpsValidate
 import MsVerif.Model.Display
+import MsVerif.Model.DescDisplay
 import MsVerif.Spec.Bip388
 import MsVerif.Spec.KeyGrammar
 
@@ -78,6 +83,87 @@ def gvCtx (ctx : Ctx) (m : Ms) : Bool :=
   | .bare => (match m with | .multiA .. | .sortedMultiA .. => false | _ => true) && cost ≤ 10000
   | .tap => (match m with | .multi .. | .sortedMulti .. => false | _ => true) && cost ≤ 4000000
 
+/-! ### descriptor wrappers -/
+
+open DescDisplay in
+/-- string keys are neither uncompressed nor x-only -/
+def strK : KeyInfo := ⟨fun _ => .compressed, fun _ => 1⟩
+
+open DescDisplay in
+/-- wrapper constructors for id (string) keys: `top_level_checks` + the wrapper's `validate`
+(C12 model, Model/Validate.lean); `Pkh::new`/`Wpkh::new`/`Tr::new` key checks never fail for them -/
+def drvDCodec : DescDisplay.DCodec where
+  ms ctx := decCodec (gvCtx ctx)
+  showKey := showNat
+  readKey := readDec
+  wrapOk d := match d with
+    | .wsh m => topLevelChecks strK .segwitv0 m && wrapperValidate idEnv strK .segwitv0 m
+    | .sh m => topLevelChecks strK .legacy m && wrapperValidate idEnv strK .legacy m
+    | .bare m => topLevelChecks strK .bare m
+    | _ => true
+  leafOk m := isOk (validate idEnv strK .tap (Ctx.CONSENSUS .tap) m)
+
+open DescDisplay in
+def tapWire : DescDisplay.TapT → String
+  | .leaf m => s!"leaf({msWire m})"
+  | .node l r => s!"node({tapWire l},{tapWire r})"
+
+open DescDisplay in
+def descWire : DescDisplay.Desc → String
+  | .bare m => s!"bare({msWire m})" | .pkh k => s!"pkh({k})" | .wpkh k => s!"wpkh({k})"
+  | .sh m => s!"sh({msWire m})" | .shWpkh k => s!"shwpkh({k})" | .shWsh m => s!"shwsh({msWire m})"
+  | .wsh m => s!"wsh({msWire m})" | .tr ik none => s!"tr({ik})"
+  | .tr ik (some t) => s!"tr({ik},{tapWire t})"
+
+open DescDisplay in
+/-- `leaf(A)` | `node(T,T)`; returns the rest -/
+def parseTapW : Nat → List Char → Option (DescDisplay.TapT × List Char)
+  | 0, _ => none
+  | fuel + 1, cs =>
+    let (id, rest) := takeIdent cs
+    match String.ofList id, rest with
+    | "leaf", '(' :: rest =>
+      match parseMs (rest.length + 2) rest with
+      | some (m, ')' :: rest') => some (.leaf m, rest')
+      | _ => none
+    | "node", '(' :: rest =>
+      match parseTapW fuel rest with
+      | some (l, ',' :: rest') =>
+        match parseTapW fuel rest' with
+        | some (r, ')' :: rest'') => some (.node l r, rest'')
+        | _ => none
+      | _ => none
+    | _, _ => none
+
+open DescDisplay in
+def parseDescW (s : String) : Option DescDisplay.Desc :=
+  let cs := s.toList
+  let (id, rest) := takeIdent cs
+  let name := String.ofList id
+  match rest with
+  | '(' :: body =>
+    if name == "pkh" || name == "wpkh" || name == "shwpkh" then
+      let (num, r) := takeIdent body
+      match natOfChars num, r with
+      | some k, [')'] => if name == "pkh" then some (.pkh k) else if name == "wpkh" then some (.wpkh k) else some (.shWpkh k)
+      | _, _ => none
+    else if name == "tr" then
+      let (num, r) := takeIdent body
+      match natOfChars num, r with
+      | some k, [')'] => some (.tr k none)
+      | some k, ',' :: r' =>
+        match parseTapW (r'.length + 2) r' with
+        | some (t, [')']) => some (.tr k (some t))
+        | _ => none
+      | _, _ => none
+    else
+      match parseMs (body.length + 2) body with
+      | some (m, [')']) =>
+        if name == "bare" then some (.bare m) else if name == "sh" then some (.sh m)
+        else if name == "shwsh" then some (.shWsh m) else if name == "wsh" then some (.wsh m) else none
+      | _ => none
+  | _ => none
+
 /-- the positions the harness probes: `thresh3`/`multi3`/`cthresh3` have 3 children, `semthresh4` is a
 semantic threshold with 4 children (1-of-n and n-of-n are refused there) -/
 def parseNumPos : String → Option NumPos
@@ -95,6 +181,14 @@ def hexOrErr (tok : String) : Option (Option String) :=
 
 def opsDisplay (t : Tables) (kind op : String) (args : List String) : Option String :=
   match kind, op, args with
+  | "C", "desctree", [d] => do
+    let d ← parseDescW d
+    pure (String.ofList (DescDisplay.display drvDCodec d))
+  | "C", "descparse", [h] => do
+    let s ← Text.unhex h
+    match DescDisplay.fromStr drvDCodec s.toList with
+    | .ok d => pure (descWire d)
+    | .error _ => pure "ERR"
   | "J", "rtsane", [entry, ctx, ast, tok] => do
     let e ← Val.parseEntry entry; let ctx ← parseCtx ctx; let ms ← parseAst ast
     let expected := if accepts t.keyEnv (Val.keyInfoOf t) ctx e ms then "pass" else "reject"
@@ -139,15 +233,9 @@ def opsDisplay (t : Tables) (kind op : String) (args : List String) : Option Str
     pure (String.ofList (display (decCodec (gvCtx ctx)) ms))
   | "C", "msparse", [ctx, h] => do
     let ctx ← parseCtx ctx; let s ← Text.unhex h
-    match Expr.fromStrInner s.toList with
+    match fromStr (decCodec (gvCtx ctx)) s.toList with
+    | .ok m => pure (msWire m)
     | .error _ => pure "ERR"
-    | .ok nodes =>
-      match Expr.toTree nodes with
-      | none => pure "ERR"
-      | some t =>
-        match fromTree (decCodec (gvCtx ctx)) t with
-        | .ok m => pure (msWire m)
-        | .error _ => pure "ERR"
   | "J", "rt", [_, _, tok] => pure (if tok == "pass" then "ok" else "bad:" ++ tok)
   | "J", "rtgen", [_, _, tok] => pure (if tok == "pass" then "ok" else "bad:" ++ tok)
   | "J", "alias", [_, _, _, tok] => pure (if tok == "pass" then "ok" else "bad:" ++ tok)
